@@ -266,7 +266,9 @@ def core_case(seed):
         call = Call(fn, [b.int_expr(bound, 1) if fn in macros else Var(rnd.choice(bound))
                          for _ in range(npos_f)], [])
         v = b.fresh(bound)
-        items.append(Cmp('==', Var(v), call if rnd.random() < 0.6 else Bin('+', call, Num(1))))
+        items.append(Cmp('==', Var(v), rnd.choice([call, call, call, Bin('+', call, Num(1)),
+                                                  # the same call text twice: each occurrence is its own conjunct
+                                                  Bin('-', call, call), Bin('+', call, call)])))
         bound.append(v)
       if rnd.random() < 0.3 and len(items) >= 2:
         # nested disjunction
@@ -322,9 +324,10 @@ AGG_SIMPLE = ['Sum', 'Min', 'Max', 'Count', 'List', 'Set']
 
 def agg_case(seed):
   rnd = random.Random(seed ^ 0x5a5a)
-  kind = rnd.choice(['pred', 'pred', 'multibody', 'distinct', 'expr', 'expr', 'two_combines',
-                     'nested', 'neg', 'neg_conj', 'impl', 'argbest', 'nullable', 'expr_head',
-                     'consumer', 'combine_chain', 'combine_chain'])
+  kinds = ['pred', 'pred', 'multibody', 'distinct', 'expr', 'expr', 'two_combines',
+           'nested', 'neg', 'neg_conj', 'impl', 'argbest', 'nullable', 'expr_head',
+           'consumer', 'combine_chain', 'combine_chain', 'nested_siblings', 'literal_keys_empty']
+  kind = kinds[seed % len(kinds)]      # every kind appears in every 19 consecutive seeds
   x, y, z, u, v, w = [Var(n) for n in 'xyzuvw']
   rules = []
   nullable = set()
@@ -461,6 +464,27 @@ def agg_case(seed):
     if rnd.random() < 0.5:
       rnd.shuffle(items)
     rules.append(Rule('P', ([x] if outer_is_x else []) + names, body=Conj(items)))
+  elif kind == 'nested_siblings':
+    # two sibling combines nested inside one outer combine, both calling their local variable y;
+    # the value of the first is used inside the second
+    o1, o2, oo = rnd.choice(['Sum', 'Max', 'Count']), rnd.choice(['Sum', 'Min', 'Max']), rnd.choice(['Sum', 'Max', 'Min'])
+    first = AggE(o1, y, Conj([A('E', w, y)]), rnd.choice(['brace', 'combine', 'concise']))
+    second = AggE(o2, y, Conj([A('F', w, y), Cmp(rnd.choice(['>', '<=', '!=']), y, u)]), rnd.choice(['brace', 'combine', 'concise']))
+    inner = [A('G', w), Cmp('==', u, first), Cmp('==', z, second)]
+    if rnd.random() < 0.5:
+      inner = [inner[0], inner[2], inner[1]]
+    outer = AggE(oo, Bin('+', z, u) if rnd.random() < 0.5 else z, Conj(inner), 'brace')
+    rules.append(Rule('P', [x, v], body=Conj([A('G', x), Cmp('==', v, outer)])))
+  elif kind == 'literal_keys_empty':
+    # every key of an aggregating predicate is a literal and the body may have no solution:
+    # a distinct predicate with keys has no row then (and its readers see none)
+    lit = rnd.choice([Str('total'), Num(7)])
+    cond = Cmp('>', y, Num(rnd.choice([0, 5, 100])))
+    rules.append(Rule('P', [lit], [('s', Agg('Sum', y)), ('m', Agg('Max', y))][:rnd.randint(1, 2)], None, True,
+                      Conj([A('E', x, y), cond])))
+    rules.append(Rule('HasP', [x], body=Conj([A('G', x), Atom('P', [Var('k')], [])])))
+    rules.append(Rule('NoP', [x], body=Conj([A('G', x), Neg(Atom('P', [Var('k')], []))])))
+    K = 3
   elif kind == 'nested' and rnd.random() < 0.4:
     # two levels deep; the innermost body refers to the rule-level x, the middle one does not
     opi, opo = rnd.choice(['Sum', 'Max', 'Count']), rnd.choice(['Sum', 'Min', 'Max'])
@@ -671,8 +695,9 @@ def sugarbase_case(seed):
   fbody = rnd.choice([A('E', x, y), A('F', y, x), Conj([A('E', x, z), A('F', z, y)])])
   rules.append(Rule('Fn', [x], value=rnd.choice([y, Bin('+', y, Num(1))]), body=fbody,
                     value_style=rnd.choice(['=', 'logica_value'])))
-  kind = rnd.choice(['neg_call', 'combine_call', 'impl_call', 'multi_rule', 'in_list', 'value_agg',
-                     'call_chain', 'neg_call', 'combine_call', 'multi_rule'])
+  kinds = ['neg_call', 'combine_call', 'impl_call', 'multi_rule', 'in_list', 'value_agg',
+           'call_chain', 'in_computed']
+  kind = kinds[seed % len(kinds)]     # every kind appears in every 8 consecutive seeds
   c = Num(rnd.choice([0, 1, 2]))
   if kind == 'neg_call':
     pos = rnd.choice([[A('G', y)], [A('E', x, y)]])
@@ -702,6 +727,10 @@ def sugarbase_case(seed):
   elif kind == 'in_list':
     lst = ListE([rnd.choice([Num(0), Num(1), y, Bin('+', y, Num(1))]) for _ in range(rnd.randint(1, 3))])
     rules.append(Rule('P', [x, y], body=Conj([A('E', y, z), InP(x, lst)])))
+  elif kind == 'in_computed':
+    # membership of a computed value (the two-alternatives reading counts equal members twice)
+    lst = ListE([rnd.choice([Num(1), y, Bin('+', y, Num(1))]) for _ in range(rnd.randint(1, 2))] + [Bin('+', y, Num(1))])
+    rules.append(Rule('P', [z, y], body=Conj([A('E', y, z), InP(Bin('+', z, Num(1)), lst)])))
   elif kind == 'value_agg':
     op = rnd.choice(['Sum', 'Min', 'Max', 'Count'])
     rules.append(Rule('P', [x], value=Agg(op, Call('Fn', [y], [])), body=A('E', x, y)))
